@@ -15,7 +15,7 @@ for d in sorted(glob.glob(os.path.join(V, 'seeded', 'C*-m*'))):
             caught.append('%s (%s%s)' % (c, kinds or 'K/T broken', ', no-failing-input-found' if nf else ''))
         else:
             caught.append('%s: not caught at this tier/seed' % c)
-    what = m.get('title') or m.get('summary') or m.get('what') or m.get('description') or ''
+    what = m.get('what_it_breaks') or m.get('title') or m.get('summary') or m.get('what') or m.get('description') or ''
     what = re.sub(r'\s+', ' ', str(what))[:160]
     ok = vh.get('demo_passes_on_clean_tree') and vh.get('demo_fails_with_patch') and vh.get('existing_suite_passes_with_patch')
     rows.append((os.path.basename(d), ', '.join(os.path.basename(f) for f in files), what, 'yes' if ok else 'NO', '<br>'.join(caught), m.get('note_here', '')))
